@@ -44,27 +44,27 @@ CHECKS['C02'] = dict(
 CHECKS['C07'] = dict(
    technique='Coq proof by nested induction over trees of rules and @media blocks (the rotation in Block.parse = reference flattening with conditions merged outer-to-inner) + byte-exact model correspondence + reference-semantics comparison',
    text='Theorem C07_rotation: for every tree of rules and @media blocks (any depth, @media in @media to any depth, selector lists, &-rules) the evaluator model returns unconditional rule trees followed by flat @media blocks and the printed groups are those of the reference flattening mflat: every declaration list under exactly the (media, selector) pair it was written under, nested conditions merged outer-to-inner, unconditional part first, source order. C07_no_media_inside_rule_*: no @media remains inside a rule. C07_conjunction: the merged condition is outer + and + inner. Correspondence: generated placements through the real compiler vs model (bytes) and vs Spec/Sem.v (items).',
-   note='Trusted: Coq kernel; hand model of Identifier/Block/Property/Formatter/Scope tied to the code by byte-exact correspondence on every generated case; harness/gens/sheet.py tree() as stand-in for the LALR parser (validated by the same comparison); harness/readcss.py; reference semantics Spec/Sem.v.' + ' Variables in feature values and media inside mixin bodies are covered by correspondence only.',
+   note='Trusted: Coq kernel; hand model of Identifier/Block/Property/Formatter/Scope tied to the code by byte-exact correspondence on every generated case; harness/gens/sheet.py tree() as stand-in for the LALR parser (validated by the same comparison) and, independently, the reference parser coq/Model/Parse.v run from the source text inside Coq (compile_text) against the real compiler on every case; harness/readcss.py; reference semantics Spec/Sem.v.' + ' Variables in feature values and media inside mixin bodies are covered by correspondence only.',
    design='3/C07')
 CHECKS['C11'] = dict(
    technique='Coq proof on the formatter model that any two option vectors give outputs equal up to whitespace characters, for every object tree (induction over the printers), + facts about the regenerated 72-row fill table (complete finite option space) + shape checks of the real output under all 72 vectors + command line == library + model/spec correspondence',
    text='Theorems C11_whitespace_only (for all option vectors o1, o2 and every evaluated program, erase(format o1) = erase(format o2), erase = remove every whitespace character; by induction over Property.fmt / Identifier.fmt / Block.fmt with the @media re-indentation / Formatter.format), C11_whitespace_only_any_fills, C11_option_space_covered, C11_minify_shape, C11_default_shape, C11_fills_are_whitespace over the fill table that gen_params.py obtains by running the real Formatter on all 72 option vectors. Correspondence: every generated sheet under a random vector vs the byte-exact model and vs the reference semantics (identical items under every vector = whitespace-only differences); for a sample of sheets ALL 72 vectors: documented shape of the real output (indentation = unit x depth, one declaration per line; no newline/optional blank when minified; no newline at all with xminify); command-line flags vs library call.',
-   note='Trusted: Coq kernel; hand model of Identifier/Block/Property/Formatter/Scope tied to the code by byte-exact correspondence on every generated case; harness/gens/sheet.py tree() as stand-in for the LALR parser (validated by the same comparison); harness/readcss.py; reference semantics Spec/Sem.v.' + ' PARTIAL: the whitespace-only theorem erases whitespace inside string literals too (that strings are verbatim is C18) and is about the formatter model; the parser and evaluator are option independent in the code (options only reach Formatter), which the correspondence over the complete option space confirms.',
+   note='Trusted: Coq kernel; hand model of Identifier/Block/Property/Formatter/Scope tied to the code by byte-exact correspondence on every generated case; harness/gens/sheet.py tree() as stand-in for the LALR parser (validated by the same comparison) and, independently, the reference parser coq/Model/Parse.v run from the source text inside Coq (compile_text) against the real compiler on every case; harness/readcss.py; reference semantics Spec/Sem.v.' + ' PARTIAL: the whitespace-only theorem erases whitespace inside string literals too (that strings are verbatim is C18) and is about the formatter model; the parser and evaluator are option independent in the code (options only reach Formatter), which the correspondence over the complete option space confirms.',
    design='3/C11')
 CHECKS['C19'] = dict(
    technique='Coq lemmas (header kept, frames keep declarations in order, table fact keyframes at-words are sub-parse identifiers) + byte-exact model correspondence + reference-semantics comparison',
    text='Theorems C19_keyframes_names (every reserved css_keyframes at-word, incl. vendor prefixes, is in Identifier._subp: re-decided on the regenerated tables), C19_header_kept, C19_frame. Correspondence: generated @keyframes / @font-face / @charset / @import css at top level, in @media and next to rules, compared byte-for-byte with the model and item-by-item with Spec/Sem.v.',
-   note='Trusted: Coq kernel; hand model of Identifier/Block/Property/Formatter/Scope tied to the code by byte-exact correspondence on every generated case; harness/gens/sheet.py tree() as stand-in for the LALR parser (validated by the same comparison); harness/readcss.py; reference semantics Spec/Sem.v.' + ' PARTIAL: whole-stylesheet statement by correspondence.',
+   note='Trusted: Coq kernel; hand model of Identifier/Block/Property/Formatter/Scope tied to the code by byte-exact correspondence on every generated case; harness/gens/sheet.py tree() as stand-in for the LALR parser (validated by the same comparison) and, independently, the reference parser coq/Model/Parse.v run from the source text inside Coq (compile_text) against the real compiler on every case; harness/readcss.py; reference semantics Spec/Sem.v.' + ' PARTIAL: whole-stylesheet statement by correspondence.',
    design='3/C19')
 CHECKS['C01'] = dict(
    technique='Coq proof (evaluator+printer on trees without LESS features: same rules, same order, same declarations) + C08 for colours + byte-exact model correspondence + reference-semantics comparison over all option vectors',
    text='Theorem C01_rules_in_order: for every list of plain rules (any number, any selector tokens, any literal values) the evaluator model emits one group per rule with declarations, in source order, with the declarations in order; C01_media_kept (from C07_rotation). Colour normalisation is C08. Correspondence: generated plain sheets (all selector forms, comma/space lists, strings, url(), !important, @media) x random option vectors vs model (bytes) and Spec/Sem.v (items).',
-   note='Trusted: Coq kernel; hand model of Identifier/Block/Property/Formatter/Scope tied to the code by byte-exact correspondence on every generated case; harness/gens/sheet.py tree() as stand-in for the LALR parser (validated by the same comparison); harness/readcss.py; reference semantics Spec/Sem.v.' + ' PARTIAL: the LALR parser is not modelled; the lexer/filter model belongs to C12.',
+   note='Trusted: Coq kernel; hand model of Identifier/Block/Property/Formatter/Scope tied to the code by byte-exact correspondence on every generated case; harness/gens/sheet.py tree() as stand-in for the LALR parser (validated by the same comparison) and, independently, the reference parser coq/Model/Parse.v run from the source text inside Coq (compile_text) against the real compiler on every case; harness/readcss.py; reference semantics Spec/Sem.v.' + ' PARTIAL: the LALR parser is not modelled; the lexer/filter model belongs to C12.',
    design='3/C01')
 CHECKS['C03'] = dict(
    technique='Coq lemmas about the scope model (innermost lookup, shadowing, block locality, unbound = error) + byte-exact model correspondence + reference-semantics (lexical environment) comparison',
    text='Theorems C03_lookup_innermost, C03_block_local, C03_definition_shadows, C03_unbound_fails about the model of lessc/scope.py and Node.process. Correspondence: generated programs with definitions at every depth, shadowing, variable-to-variable chains, uses in values, compared with the model (bytes) and with Spec/Sem.v (lexical substitution, top level: last definition wins). Known finding F12 (top-level name used between two of its definitions takes the earlier one; pinned by a fixture).',
-   note='Trusted: Coq kernel; hand model of Identifier/Block/Property/Formatter/Scope tied to the code by byte-exact correspondence on every generated case; harness/gens/sheet.py tree() as stand-in for the LALR parser (validated by the same comparison); harness/readcss.py; reference semantics Spec/Sem.v.' + ' PARTIAL: the end-to-end substitution theorem is not proved; uses in selectors / media conditions / mixin arguments are covered by C18/C05 correspondence.',
+   note='Trusted: Coq kernel; hand model of Identifier/Block/Property/Formatter/Scope tied to the code by byte-exact correspondence on every generated case; harness/gens/sheet.py tree() as stand-in for the LALR parser (validated by the same comparison) and, independently, the reference parser coq/Model/Parse.v run from the source text inside Coq (compile_text) against the real compiler on every case; harness/readcss.py; reference semantics Spec/Sem.v.' + ' PARTIAL: the end-to-end substitution theorem is not proved; uses in selectors / media conditions / mixin arguments are covered by C18/C05 correspondence.',
    design='3/C03')
 
 CHECKS['C10'] = dict(
@@ -101,8 +101,8 @@ CHECKS['C05'] = dict(
 CHECKS['C12'] = dict(
    category='other',
    technique='Coq proof on a Gallina model of the PLY lexer (all rules, all modes, rule order regenerated from the built lexer) and of LessLexer.token(): gap theorem, layout-independence theorem, last-semicolon theorem + token-stream correspondence with the real lexer + base-vs-variant compilation on the real compiler (generated programs and the example corpus)',
-   text='Theorems C12_gap_raw (in every lexer state outside an interpolated string, any gap of blank runs, line-break runs, block comments and line comments lexes to one whitespace token per run; comment text yields no token and consumes exactly itself), C12_gap_filtered (what LessLexer.token() passes on, for every token history), C12_layout_independent (two gaps at the same place that both contain / both lack whitespace give the same token types and values for the whole rest of the input), C12_last_semicolon (written or omitted, the parser receives ; } and the same continuation), C12_rule_order (the model rule order = the order of the lexer PLY builds). Correspondence: (a) raw and filtered token streams (type, value, line) model vs real lexer on generated sheets in wild layouts, token soups and corpus files; (b) each generated program in a base layout vs 3 variants differing only in whitespace-run content, comments (bodies with ; { } quotes //) at statement boundaries and last semicolons must compile to identical bytes under the same options; (c) the same on every corpus file with runs located by the real lexer token positions.',
-   note='PARTIAL (category other): the theorems end at the token stream handed to the parser; that the LALR tables map equal streams to equal CSS is decided by (b),(c) on the real compiler. The model abstains (counted in the evidence) on backslash escapes, non-ASCII names and unquoted URL shapes inside parentheses. Trusted: Coq kernel; hand-written matchers for each rule expression (Python re semantics); PLY rule-order contract (checked by C12_rule_order against lexer.lexstatere).',
+   text='Theorems C12_compile_layout_independent (END TO END on the model pipeline text -> CSS, coq/Model/Pipeline.v: whatever was lexed before, replacing a gap by another gap that also contains / lacks whitespace leaves the compiled CSS unchanged), C12_gap_raw (in every lexer state outside an interpolated string, any gap of blank runs, line-break runs, block comments and line comments lexes to one whitespace token per run; comment text yields no token and consumes exactly itself), C12_gap_filtered (what LessLexer.token() passes on, for every token history), C12_layout_independent (two gaps at the same place that both contain / both lack whitespace give the same token types and values for the whole rest of the input), C12_last_semicolon (written or omitted, the parser receives ; } and the same continuation), C12_rule_order (the model rule order = the order of the lexer PLY builds). Correspondence: (a) raw and filtered token streams (type, value, line) model vs real lexer on generated sheets in wild layouts, token soups and corpus files; (a2) the whole model pipeline (lexer + filter + reference parser + evaluator + formatter) on the wild-layout texts vs the real compiler, byte for byte; (b) each generated program in a base layout vs 3 variants differing only in whitespace-run content, comments (bodies with ; { } quotes //) at statement boundaries and last semicolons must compile to identical bytes under the same options; (c) the same on every corpus file with runs located by the real lexer token positions.',
+   note='PARTIAL (category other): the end-to-end theorem is about the model pipeline, whose parser is a hand-written reference parser for the fragment (coq/Model/Parse.v), not PLY's LALR tables; the tie is the byte-exact text-level correspondence (a2) and (b),(c) on the real compiler. The model abstains (counted in the evidence) on backslash escapes, non-ASCII names and unquoted URL shapes inside parentheses. Trusted: Coq kernel; hand-written matchers for each rule expression (Python re semantics); PLY rule-order contract (checked by C12_rule_order against lexer.lexstatere).',
    design='3/C12')
 
 CHECKS['C15'] = dict(
